@@ -398,12 +398,13 @@ theorem readEvent_extBlock (x : ExtDoc) (hw : x.wf = true) (st : RState) (X : Li
 theorem renderFrame_eq (f : FrameDoc) (rest : List XmlEv) :
     renderFrame f ++ rest
       = .start .FRAME (idAttr f.id) ::
-          (textElem .SHORT_NAME f.shortName ++ (textElem .BYTE_LENGTH (digits f.byteLength)
+          (textElem .SHORT_NAME f.shortName ++ ((match f.desc with | some d => textElem .DESC d | none => [])
+            ++ (textElem .BYTE_LENGTH (digits f.byteLength)
             ++ (textElem .FRAME_TYPE OTHER ++ (.start .other [] ::
               ((f.pdus.map renderPduInst).flatten ++ (.end_ .other ::
-                ((match f.ext with | some x => extBlock x | none => []) ++ (.end_ .FRAME :: rest)))))))) := by
-  obtain ⟨id, sn, bl, pdus, ext⟩ := f
-  cases ext <;> simp [renderFrame, extBlock, List.append_assoc]
+                ((match f.ext with | some x => extBlock x | none => []) ++ (.end_ .FRAME :: rest))))))))) := by
+  obtain ⟨id, sn, d, bl, pdus, ext⟩ := f
+  cases ext <;> cases d <;> simp [renderFrame, extBlock, List.append_assoc]
 
 theorem readFile_renderFrame (f : FrameDoc) (hw : f.wf = true) (st : RState) (acc : Acc)
     (rest : List XmlEv) (S : List XmlEv) (hS : ∀ st Y, readEvent st (S ++ Y) = readEvent st Y) :
@@ -418,33 +419,49 @@ theorem readFile_renderFrame (f : FrameDoc) (hw : f.wf = true) (st : RState) (ac
       = (.ok (.frameStart f.id), { st with shortName := none, byteLength := none }, Y) := by
     intro Y; rw [hS]; simp [readEvent, attrReq_id]
   -- the silent head
-  have hsil : ∀ Y acc' ext,
+  have hsil : ∀ Y acc' ext, ∃ sth, sth.shortName = some f.shortName ∧ sth.byteLength = some f.byteLength ∧
       readFrame { st with shortName := none, byteLength := none }
-        (textElem .SHORT_NAME f.shortName ++ (textElem .BYTE_LENGTH (digits f.byteLength)
-          ++ (textElem .FRAME_TYPE OTHER ++ (.start .other [] :: Y)))) acc' ext
-      = readFrame { st with shortName := some f.shortName, byteLength := some f.byteLength } Y acc' ext := by
+        (textElem .SHORT_NAME f.shortName ++ ((match f.desc with | some d => textElem .DESC d | none => [])
+          ++ (textElem .BYTE_LENGTH (digits f.byteLength)
+          ++ (textElem .FRAME_TYPE OTHER ++ (.start .other [] :: Y))))) acc' ext
+      = readFrame sth Y acc' ext := by
     intro Y acc' ext
-    apply readFrame_silent
-    simp [textElem, hsn', digits_ne_nil, OTHER_ne_nil, readEvent, readText, hp]
+    rcases hdesc : f.desc with _ | d
+    · refine ⟨{ st with shortName := some f.shortName, byteLength := some f.byteLength }, rfl, rfl, ?_⟩
+      apply readFrame_silent
+      simp [textElem, hsn', digits_ne_nil, OTHER_ne_nil, readEvent, readText, hp]
+    · by_cases hd : d = []
+      · refine ⟨{ st with shortName := some f.shortName, byteLength := some f.byteLength, description := none },
+          rfl, rfl, ?_⟩
+        apply readFrame_silent
+        simp [textElem, hsn', digits_ne_nil, OTHER_ne_nil, readEvent, readText, hp, hd]
+      · refine ⟨{ st with shortName := some f.shortName, byteLength := some f.byteLength, description := some d },
+          rfl, rfl, ?_⟩
+        apply readFrame_silent
+        simp [textElem, hsn', digits_ne_nil, OTHER_ne_nil, readEvent, readText, hp, hd]
+  obtain ⟨sth, hsh1, hsh2, hsil'⟩ := hsil
+    ((f.pdus.map renderPduInst).flatten ++ (.end_ .other ::
+      ((match f.ext with | some x => extBlock x | none => []) ++ (.end_ .FRAME :: rest)))) [] {}
   obtain ⟨st1, hs1, hb1, hins⟩ := readFrame_insts f.pdus hpd
     (.end_ .other :: ((match f.ext with | some x => extBlock x | none => []) ++ (.end_ .FRAME :: rest)))
-    { st with shortName := some f.shortName, byteLength := some f.byteLength } [] {}
-  simp only at hs1 hb1
+    sth [] {}
+  rw [hsh1] at hs1
+  rw [hsh2] at hb1
   cases hx : f.ext with
   | none =>
-    rw [hx] at hins
+    rw [hx] at hins hsil'
     refine ⟨{ st1 with shortName := none, byteLength := none }, readFile_frame (hstart _) ?_⟩
-    rw [hsil, hins]
+    rw [hsil', hins]
     simp only [List.nil_append]
     rw [readFrame_end (sn := f.shortName) (bl := f.byteLength)
           (st' := { st1 with shortName := none, byteLength := none }) (evs' := rest)]
     · simp [frameReadOf, hx, ordered]
     · simp [readEvent, hs1, hb1]
   | some x =>
-    rw [hx] at hext hins
+    rw [hx] at hext hins hsil'
     obtain ⟨st2, hs2, hb2, hev⟩ := readEvent_extBlock x hext st1 (.end_ .FRAME :: rest)
     refine ⟨{ st2 with shortName := none, byteLength := none }, readFile_frame (hstart _) ?_⟩
-    rw [hsil, hins]
+    rw [hsil', hins]
     have hsk : readEvent st1 (.end_ .other :: (extBlock x ++ (.end_ .FRAME :: rest)))
         = (.ok (.manufacturerExtension x.messageType x.messageInfo x.applicationId x.contextId), st2,
             .end_ .FRAME :: rest) := by
